@@ -27,12 +27,20 @@ class C09(Check):
     def gen(self, rng, tier, i):
         rl = rng.random() < 0.4
         cheap = ["uniform", "halton", "rseq", "pso", "bestbatch", "uniform", "halton", "rf"]
-        cfg = calsim.gen_config(rng, rl_prob=1.0 if rl else 0.0, kinds=cheap, loss_kinds=["minkowski", "msm"])
+        cfg = calsim.gen_config(rng, rl_prob=1.0 if rl else 0.0, kinds=cheap, loss_kinds=["minkowski", "msm"], extreme_prob=0.12)
+        if cfg["model"].get("extreme"):
+            cfg["model"]["extreme"] = rng.choice([0.3, 0.7, 1.0])     # diverging simulations: non-finite losses, possibly from the first batch on
         if rl and rng.random() < 0.5:
             cfg["scheduler"]["agent"] = {"kind": "scripted", "script": [rng.randrange(8) for _ in range(rng.randint(1, 9))]}
         if rng.random() < 0.15:
             # the convergence stop ends sessions early; the designation order must carry on from there
             calsim.make_scripted_convergence(cfg, rng, n_values=rng.randint(2, 8))
+        if not rl and len(cfg["lineup"]) >= 2 and rng.random() < 0.1:
+            # the same sampler object listed at two positions of the line-up (a line-up is a sequence, not a set)
+            j = rng.randrange(len(cfg["lineup"]))
+            dup = copy.deepcopy(cfg["lineup"][j])
+            dup["alias_of"] = j
+            cfg["lineup"].insert(rng.randrange(j + 1, len(cfg["lineup"]) + 1), dup)
         folder = rng.random() < 0.6
         ops = []
         u0 = rng.random()
@@ -95,7 +103,22 @@ class C09(Check):
         if sim.cal is not None and not fatal:
             n_s = len(sim.cal.scheduler.samplers)
             sizes = [s.batch_size for s in sim.cal.scheduler.samplers]
-            if not rl:
+            tags = getattr(sim, "supplied_tags", None)
+            if not rl and n_s != len(cfg["lineup"]):
+                res.add("round-robin-order", "line-up-length", f"{len(cfg['lineup'])} samplers were supplied, the scheduler cycles over {n_s}")
+            elif not rl and tags is not None:
+                res.stats["probe:repeated-object-in-line-up"] += 1
+                for i, b in enumerate(done):
+                    want = tags[i % len(tags)]
+                    if b.tag != want:
+                        res.add("round-robin-order", "position", f"batch {i} was produced by the sampler object supplied at position {b.tag} "
+                                                                 f"({b.cls}); round-robin over the supplied line-up (objects {tags}) prescribes the object of "
+                                                                 f"position {i % len(tags)} (object {want}); sequence {[x.tag for x in done]}")
+                        break
+                    if len(b.returned) != b.bs:
+                        res.add("round-robin-order", "batch-size", f"batch {i} has {len(b.returned)} rows, its sampler has batch size {b.bs}")
+                        break
+            elif not rl:
                 for i, b in enumerate(done):
                     if b.pos != i % n_s:
                         res.add("round-robin-order", "position", f"batch {i} of the calibration (over its whole life; ops {scn['ops']}) was produced by "
